@@ -2,8 +2,8 @@ package c13
 
 import (
 	"encoding/json"
-	"github.com/influxdata/kapacitor/tick/ast"
 	"fmt"
+	"github.com/influxdata/kapacitor/tick/ast"
 	"os"
 	"testing"
 )
